@@ -142,8 +142,6 @@ func derivesFromLispInt(v ssa.Value, depth int) bool {
 	return false
 }
 
-
-
 // c09varassert: single-result type assertions on the value of a special variable.
 func c09varassert(c *core.Ctx, r *core.Reporter) {
 	const rule = "C09.varassert"
@@ -224,17 +222,17 @@ func c09varassert(c *core.Ctx, r *core.Reporter) {
 const topScopeReason = "reads the variable from the REPL's own top-level scope (or a fresh scope), which sees only the global value; the global setter rejects anything that is not a stream: (setq *standard-output* 5) signals a type error"
 
 var varAssertExceptions = map[string]string{
-	"pkg/repl.(editor).initialize|*standard-input*.(io.Reader)":   topScopeReason,
-	"pkg/repl.(editor).initialize|*standard-output*.(io.Writer)":  topScopeReason,
-	"pkg/repl.(termReader).read|*standard-input*.(io.Reader)":     topScopeReason,
-	"pkg/repl.(termReader).read|*standard-output*.(io.Writer)":    topScopeReason,
-	"pkg/repl.Run$1|*standard-output*.(io.Writer)":                topScopeReason,
-	"pkg/repl.process$1|*standard-output*.(io.Writer)":            topScopeReason,
-	"pkg/repl.process$1|*standard-output*.(io.Writer)#2":          topScopeReason,
-	"pkg/repl.process$1|*standard-output*.(io.Writer)#3":          topScopeReason,
-	"pkg/repl.process$1|*standard-output*.(io.Writer)#4":          topScopeReason,
-	"pkg/repl.process|*standard-output*.(io.Writer)":              topScopeReason,
-	"pkg/watch.displayError|*error-output*.(io.Writer)":           topScopeReason,
+	"pkg/repl.(editor).initialize|*standard-input*.(io.Reader)":  topScopeReason,
+	"pkg/repl.(editor).initialize|*standard-output*.(io.Writer)": topScopeReason,
+	"pkg/repl.(termReader).read|*standard-input*.(io.Reader)":    topScopeReason,
+	"pkg/repl.(termReader).read|*standard-output*.(io.Writer)":   topScopeReason,
+	"pkg/repl.Run$1|*standard-output*.(io.Writer)":               topScopeReason,
+	"pkg/repl.process$1|*standard-output*.(io.Writer)":           topScopeReason,
+	"pkg/repl.process$1|*standard-output*.(io.Writer)#2":         topScopeReason,
+	"pkg/repl.process$1|*standard-output*.(io.Writer)#3":         topScopeReason,
+	"pkg/repl.process$1|*standard-output*.(io.Writer)#4":         topScopeReason,
+	"pkg/repl.process|*standard-output*.(io.Writer)":             topScopeReason,
+	"pkg/watch.displayError|*error-output*.(io.Writer)":          topScopeReason,
 }
 
 // c09nilok: v, _ := x.(*T) yields nil when x is something else; v must be nil-tested before it is used.
@@ -533,8 +531,8 @@ var assertExceptions = map[string]string{
 
 var assertNotJudged = map[string]string{
 	"pkg/cl.(WriteByte).Call|args[1].(slip.Stream)": "reached only when Write fails on an io.Writer that is not a slip.Stream; no such Lisp object was found",
-	"pkg/watch.formError|list[3].(slip.String)":    "operand is a message received from a watch server over the network, not Lisp-level input of this interpreter; not reproduced",
-	"pkg/watch.formError|list[2].(slip.Symbol)":    "as the line above",
+	"pkg/watch.formError|list[3].(slip.String)":     "operand is a message received from a watch server over the network, not Lisp-level input of this interpreter; not reproduced",
+	"pkg/watch.formError|list[2].(slip.Symbol)":     "as the line above",
 }
 
 const ruleDiv = "C09.div"
@@ -831,28 +829,28 @@ func nonZeroTestOfParamOrLocal(ifi *ssa.If, branch bool) bool {
 const editorReason = "interactive terminal editor geometry (columns, widths computed from the terminal size and name lengths plus padding), not Lisp input"
 
 var divExceptions = map[string]string{
-	"pkg/cl.(Lcm).Call|*ssa.BinOp /":                       "the divisor is gcd(z, num) and num != 0 here (a zero argument returns early); gcd of a non-zero number is non-zero",
-	"slip.(Array).Adjust|phi:off /":                        "sz is a product of trailing dimensions; if it is zero the total size is zero too and the loop over the elements does not run",
-	"slip.(Array).Adjust|phi:off %":                        "as the division on the line above",
-	"pkg/cl.(ParseInteger).Call|*ssa.BinOp /":              "radix is 10 or a :radix value validated to lie in 2..36 when it was parsed",
-	"pkg/gi.(Encrypt).Call|call %":                         "bsize is the block size of the AES or DES cipher just created (16 or 8)",
-	"pkg/gi.(Encrypt).Call|call %#2":                       "as above",
-	"pkg/gi.(EncryptFile).Call|call %":                     "as above",
-	"pkg/gi.(EncryptFile).Call|call %#2":                   "as above",
-	"pkg/cl.(control).dirJustify|phi:padCnt /":             "segCnt was incremented on the line above (colon case), so it is at least 1",
-	"pkg/cl.(control).dirJustify|phi:padCnt /#2":           "the i-th gap is divided among the remaining gaps: segCnt starts at the number of gaps and is decremented once per gap, so it is at least 1 while 0 < i",
-	"pkg/cl.(control).dirJustify|phi:padCnt /#3":           "with the @ modifier segCnt was incremented once beyond the gaps consumed by the loop, so it is 1 here",
-	"pkg/repl.(editor).displayCompletions|*ssa.BinOp /":   editorReason,
-	"pkg/repl.(editor).displayCompletions|call /":         editorReason,
-	"pkg/repl.(editor).displayHelp|*ssa.Const /":          editorReason,
-	"pkg/repl.(editor).displayHelp|*ssa.BinOp /":          editorReason,
-	"pkg/repl.(editor).displayHelp|*ssa.Const /#2":        editorReason,
-	"pkg/repl.(editor).updateDirty|*ssa.BinOp /":          editorReason,
-	"pkg/repl.(editor).updateDirty|*ssa.BinOp /#2":        editorReason,
-	"pkg/repl.completeOverride|field:index %":             editorReason,
-	"pkg/repl.completeOverride|*ssa.BinOp /":              editorReason,
-	"pkg/repl.completeOverride|field:index %#2":           editorReason,
-	"pkg/repl.help|call /":                                editorReason,
+	"pkg/cl.(Lcm).Call|*ssa.BinOp /":                    "the divisor is gcd(z, num) and num != 0 here (a zero argument returns early); gcd of a non-zero number is non-zero",
+	"slip.(Array).Adjust|phi:off /":                     "sz is a product of trailing dimensions; if it is zero the total size is zero too and the loop over the elements does not run",
+	"slip.(Array).Adjust|phi:off %":                     "as the division on the line above",
+	"pkg/cl.(ParseInteger).Call|*ssa.BinOp /":           "radix is 10 or a :radix value validated to lie in 2..36 when it was parsed",
+	"pkg/gi.(Encrypt).Call|call %":                      "bsize is the block size of the AES or DES cipher just created (16 or 8)",
+	"pkg/gi.(Encrypt).Call|call %#2":                    "as above",
+	"pkg/gi.(EncryptFile).Call|call %":                  "as above",
+	"pkg/gi.(EncryptFile).Call|call %#2":                "as above",
+	"pkg/cl.(control).dirJustify|phi:padCnt /":          "segCnt was incremented on the line above (colon case), so it is at least 1",
+	"pkg/cl.(control).dirJustify|phi:padCnt /#2":        "the i-th gap is divided among the remaining gaps: segCnt starts at the number of gaps and is decremented once per gap, so it is at least 1 while 0 < i",
+	"pkg/cl.(control).dirJustify|phi:padCnt /#3":        "with the @ modifier segCnt was incremented once beyond the gaps consumed by the loop, so it is 1 here",
+	"pkg/repl.(editor).displayCompletions|*ssa.BinOp /": editorReason,
+	"pkg/repl.(editor).displayCompletions|call /":       editorReason,
+	"pkg/repl.(editor).displayHelp|*ssa.Const /":        editorReason,
+	"pkg/repl.(editor).displayHelp|*ssa.BinOp /":        editorReason,
+	"pkg/repl.(editor).displayHelp|*ssa.Const /#2":      editorReason,
+	"pkg/repl.(editor).updateDirty|*ssa.BinOp /":        editorReason,
+	"pkg/repl.(editor).updateDirty|*ssa.BinOp /#2":      editorReason,
+	"pkg/repl.completeOverride|field:index %":           editorReason,
+	"pkg/repl.completeOverride|*ssa.BinOp /":            editorReason,
+	"pkg/repl.completeOverride|field:index %#2":         editorReason,
+	"pkg/repl.help|call /":                              editorReason,
 }
 
 // divNeedsNonZeroGuard: exceptions that rest on a zero test of an operand on every path to the site.
@@ -993,15 +991,15 @@ func otherLenPositive(ifi *ssa.If, branch bool) bool {
 }
 
 var relExceptions = map[string]string{
-	"pkg/cl.(control).dirR|phi:words[hilen1]":             "guarded by 0 < len(trip), and the same iteration appended trip to words under the same test; no instruction between the two shortens words (relation between two slices, beyond the length lattice)",
-	"pkg/repl.(Form).TabAppend|phi:b[last1]":              "inside `if 0 < len(f)`: the loop over f appends at least two bytes before the last one is overwritten",
-	"pkg/repl.(editor).displayHelp|param:doc[last1]":      "interactive terminal editor state, not Lisp input; doc strings handed in are non-empty lines",
-	"pkg/repl.(editor).drawLine|phi:rline[last1]":         "interactive terminal editor state, not Lisp input",
-	"pkg/repl.(editor).findWordEnd|field:lines[last1]":    "interactive terminal editor state: the editor always holds at least one line",
-	"pkg/xml.(Read).Call|phi:stack[last1]":                "encoding/xml rejects an end element without a matching start element before it is delivered, so the stack is non-empty at every EndElement",
-	"pp.resolveSymbol|call:Split[last1]":                   "strings.Split with a non-empty separator always returns at least one element",
-	"slip.(App).load|extract#0(call:ReadFile)[last1]":     "loader of the application's own encrypted bundle (not Lisp input): the payload holds at least one cipher block after the nonce",
-	"slip.AppendDoc|phi:b[last1]":                         "ret is only true after a newline was appended to b in an earlier iteration, so b is non-empty",
+	"pkg/cl.(control).dirR|phi:words[hilen1]":          "guarded by 0 < len(trip), and the same iteration appended trip to words under the same test; no instruction between the two shortens words (relation between two slices, beyond the length lattice)",
+	"pkg/repl.(Form).TabAppend|phi:b[last1]":           "inside `if 0 < len(f)`: the loop over f appends at least two bytes before the last one is overwritten",
+	"pkg/repl.(editor).displayHelp|param:doc[last1]":   "interactive terminal editor state, not Lisp input; doc strings handed in are non-empty lines",
+	"pkg/repl.(editor).drawLine|phi:rline[last1]":      "interactive terminal editor state, not Lisp input",
+	"pkg/repl.(editor).findWordEnd|field:lines[last1]": "interactive terminal editor state: the editor always holds at least one line",
+	"pkg/xml.(Read).Call|phi:stack[last1]":             "encoding/xml rejects an end element without a matching start element before it is delivered, so the stack is non-empty at every EndElement",
+	"pp.resolveSymbol|call:Split[last1]":               "strings.Split with a non-empty separator always returns at least one element",
+	"slip.(App).load|extract#0(call:ReadFile)[last1]":  "loader of the application's own encrypted bundle (not Lisp input): the payload holds at least one cipher block after the nonce",
+	"slip.AppendDoc|phi:b[last1]":                      "ret is only true after a newline was appended to b in an earlier iteration, so b is non-empty",
 }
 
 const ruleIdx = "C09.idx"
@@ -1137,16 +1135,16 @@ var usedIdxEx = map[string]bool{}
 // idxExceptions: constructs confirmed safe by reading, one reason each. A key
 // that no longer matches anything is reported (stale suppressions cannot accumulate).
 var idxExceptions = map[string]string{
-	"pkg/cl.(Count).Call|param:args[idx1]":    "setKeysItem (called just before with the same args) enforces CheckArgCount(min=2) because sfv.noItem is false for this caller (only delete-duplicates sets it); the bound is a struct field, beyond the constant folding of the engine. (count 1) => 'Too few arguments ... At least 2'",
-	"pkg/cl.(Delete).Call|param:args[idx1]":   "as count: setKeysItem enforces min=2 when sfv.noItem is false, which it is for this caller",
-	"pkg/cl.(Find).Call|param:args[idx1]":     "as count: setKeysItem enforces min=2 when sfv.noItem is false, which it is for this caller",
-	"pkg/cl.(Position).Call|param:args[idx1]": "as count: setKeysItem enforces min=2 when sfv.noItem is false, which it is for this caller",
-	"pkg/cl.(Ecase).Call|assert:slip.List[idx0]": "reached only after the first loop validated every clause as a non-empty List (TypePanic otherwise) without finding a match; a per-element invariant established by an earlier loop is outside the engine",
-	"pkg/cl.(Etypecase).Call|assert:slip.List[idx0]": "as ecase: the first loop validates every clause (!ok || len==0 -> TypePanic) before this loop runs",
+	"pkg/cl.(Count).Call|param:args[idx1]":                      "setKeysItem (called just before with the same args) enforces CheckArgCount(min=2) because sfv.noItem is false for this caller (only delete-duplicates sets it); the bound is a struct field, beyond the constant folding of the engine. (count 1) => 'Too few arguments ... At least 2'",
+	"pkg/cl.(Delete).Call|param:args[idx1]":                     "as count: setKeysItem enforces min=2 when sfv.noItem is false, which it is for this caller",
+	"pkg/cl.(Find).Call|param:args[idx1]":                       "as count: setKeysItem enforces min=2 when sfv.noItem is false, which it is for this caller",
+	"pkg/cl.(Position).Call|param:args[idx1]":                   "as count: setKeysItem enforces min=2 when sfv.noItem is false, which it is for this caller",
+	"pkg/cl.(Ecase).Call|assert:slip.List[idx0]":                "reached only after the first loop validated every clause as a non-empty List (TypePanic otherwise) without finding a match; a per-element invariant established by an earlier loop is outside the engine",
+	"pkg/cl.(Etypecase).Call|assert:slip.List[idx0]":            "as ecase: the first loop validates every clause (!ok || len==0 -> TypePanic) before this loop runs",
 	"pkg/flavors.(Flavor).DefMethodList|assert:slip.List[low1]": "the list is (*slip.Lambda).LoadForm(), which always starts with the symbol lambda and the lambda list (len >= 2); lam is a concrete *slip.Lambda; not a Lisp argument list",
-	"pkg/flavors.(defHand).Call|param:args[idx0]": "only invoked as Flavor.defaultHandler.Call from Instance.Receive where the argument list is built as append([message], args...), len >= 1; (send inst :nosuch) gives a proper invalid-method error",
-	"pkg/gi.(Select).Call|assert:slip.List[idx0]": "prepClauses is called first and raises TypePanic for any clause that is not a non-empty List; clauses are mutated in place, never shortened",
-	"pkg/gi.(Select).reflectClauses|assert:slip.List[idx0]": "only called from Select.Call after prepClauses validated every clause as a non-empty List",
+	"pkg/flavors.(defHand).Call|param:args[idx0]":               "only invoked as Flavor.defaultHandler.Call from Instance.Receive where the argument list is built as append([message], args...), len >= 1; (send inst :nosuch) gives a proper invalid-method error",
+	"pkg/gi.(Select).Call|assert:slip.List[idx0]":               "prepClauses is called first and raises TypePanic for any clause that is not a non-empty List; clauses are mutated in place, never shortened",
+	"pkg/gi.(Select).reflectClauses|assert:slip.List[idx0]":     "only called from Select.Call after prepClauses validated every clause as a non-empty List",
 }
 
 // c09bounds: a function that validates two indices of one sequence against its length must also order them.
